@@ -37,6 +37,7 @@ func HarnessDrainQuiescent() {
 	}
 	root := vRootChain(router)
 	done := 0
+	clientsParked := 0
 	clientFirst := vDirected && vChoose("client_first", 2) == 1
 	for c := 0; c < C; c++ {
 		c := c
@@ -45,18 +46,24 @@ func HarnessDrainQuiescent() {
 			vAssume(arrival == 0)
 		}
 		plan := &vProxyPlan{}
-		switch vChoose("plan"+vItoa(c), 3) {
+		switch vChoose("plan"+vItoa(c), 4) {
 		case 0:
 			plan.service = vDur("service_time" + vItoa(c))
+			plan.upgradeHeader = vChoose("upgrade_header"+vItoa(c), 2) == 1
 		case 1:
 			plan.never = true
 		case 2:
 			plan.hijack = true
+		case 3:
+			plan.hijackLate = true
+			plan.service = vDur("upgrade_after" + vItoa(c))
 		}
 		vProxyPlans[c] = plan
 		go func() {
 			vDaemon() // may stay parked at a never-answering target that is not drained
+			clientsParked++
 			vArriveAfter(arrival)
+			clientsParked--
 			vDoRequest(root, c, "h", "/")
 			done++
 		}()
@@ -64,6 +71,13 @@ func HarnessDrainQuiescent() {
 	if clientFirst {
 		// the client reaches its hold point before the command is issued
 		vBlockUntil(func() bool { return vHeld == C })
+	}
+	if !vDirected && vChoose("target_turns_unhealthy", 2) == 1 {
+		// the target fails a probe while the request is in flight on it: it leaves the rotation but must still be drained
+		vBlockUntil(func() bool { return vIndexOf("forward_begin", -1) >= 0 || vClientResults[0] != nil || clientsParked > 0 })
+		if vIndexOf("forward_begin", -1) >= 0 {
+			svc.active.all[0].HealthCheckCompleted(false)
+		}
 	}
 	begin := vNow()
 	var err error
@@ -142,6 +156,9 @@ func HarnessDrainQuiescent() {
 			deadline := drainBeginAt + int64(drainTimeout)
 			if res == nil {
 				vAssert(false, "drain: a request in flight when draining began is still unanswered")
+			} else if plan.hijackLate {
+				// the upgrade completed (or not) during the drain window: closed by the deadline at the latest
+				vAssert(endIdx >= 0 && vTrace[endIdx].at <= deadline, "drain: a connection that upgrades during the drain is closed by the drain deadline at the latest")
 			} else if plan.hijack {
 				vAssert(endIdx >= 0 && vTrace[endIdx].at == drainBeginAt, "drain: upgraded connections are closed as soon as draining begins")
 			} else if plan.never {
